@@ -121,6 +121,14 @@ class OpaqueObj:
         return f"<Opaque {self.label}>"
 
 
+class Mask:
+    """Boolean mask produced by np.isfinite/np.isnan on a folded array (entries are symbols: all finite)."""
+
+    def __init__(self, arr, selects_nonfinite):
+        self.arr = arr
+        self.selects_nonfinite = selects_nonfinite
+
+
 class Arr:
     """Minimal numpy-array stand-in over nested lists."""
 
@@ -555,6 +563,8 @@ class Evaluator:
         if isinstance(f, OpaqueObj):
             return OpaqueObj(f"{f.label}()")
         if isinstance(f, ObjVal):
+            if "__call__" in f.attrs:
+                return self.call(f.attrs["__call__"], args, kwargs, node)
             m = f.cinfo.find_method("__call__") if f.cinfo is not None else None
             if m is None:
                 raise Raised("TypeError", f"{f!r} object is not callable", node)
@@ -788,6 +798,27 @@ class Evaluator:
             return None
         if isinstance(s, ast.Global):
             return None
+        if isinstance(s, ast.With):
+            exits = []
+            for item in s.items:
+                ctx = self.eval(item.context_expr, env)
+                val = ctx
+                if isinstance(ctx, ObjVal) and ctx.cinfo is not None and ctx.cinfo.find_method("__enter__") is not None:
+                    val = self.call(self.getattr(ctx, "__enter__", s), [], {})
+                    exits.append(ctx)
+                elif isinstance(ctx, ObjVal) and "__enter__" in ctx.attrs:
+                    val = self.call(ctx.attrs["__enter__"], [], {})
+                    if "__exit__" in ctx.attrs:
+                        exits.append(ctx)
+                if item.optional_vars is not None:
+                    self.assign(item.optional_vars, val, env)
+            try:
+                sig = self.exec_block(s.body, env)
+            finally:
+                for ctx in reversed(exits):
+                    ex = ctx.attrs.get("__exit__") if "__exit__" in ctx.attrs else self.getattr(ctx, "__exit__", s)
+                    self.call(ex, [None, None, None], {})
+            return sig
         raise Undecided(f"statement {type(s).__name__}")
 
     def assign(self, t, v, env):
@@ -810,6 +841,13 @@ class Evaluator:
         elif isinstance(t, ast.Subscript):
             o = self.eval(t.value, env)
             k = self.eval(t.slice, env)
+            if isinstance(k, Mask):
+                if k.selects_nonfinite:
+                    # folded entries are symbols standing for finite numbers: nothing is selected
+                    if isinstance(o, Arr):
+                        o.cleaned = True
+                    return
+                raise Undecided("masked assignment to the finite entries")
             k = _key(k)
             if isinstance(o, ObjVal):
                 o.store[k] = v
@@ -947,6 +985,8 @@ class Evaluator:
         if isinstance(n.op, ast.UAdd):
             return v
         if isinstance(n.op, ast.Invert):
+            if isinstance(v, Mask):
+                return Mask(v.arr, not v.selects_nonfinite)
             raise Undecided("bitwise invert")
         raise Undecided("unary op")
 
@@ -979,6 +1019,10 @@ class Evaluator:
         if isinstance(a, Arr) or isinstance(b, Arr):
             if isinstance(op, ast.MatMult):
                 return _matmul(self, a, b)
+            if isinstance(a, (list, tuple)):
+                a = Arr(list(a))
+            if isinstance(b, (list, tuple)):
+                b = Arr(list(b))
             if not isinstance(a, Arr):
                 return b._map(lambda y: self.binop(op, a, y))
             return a._zip(b, lambda x, y: self.binop(op, x, y))
@@ -1798,6 +1842,8 @@ _EXT_CALLS = {
     "numpy.full": lambda ev, n, v, **k: Arr([v] * int(n)),
     "numpy.eye": lambda ev, n, **k: Arr([[1 if i == j else 0 for j in range(int(n))] for i in range(int(n))]),
     "numpy.isinf": lambda ev, x: is_inf(x),
+    "numpy.isfinite": lambda ev, x: Mask(x, False),
+    "numpy.isnan": lambda ev, x: Mask(x, True),
     "scipy.special.zeta": _zeta,
     "scipy.special.spence": _spence,
     "scipy.special.binom": _binom,
